@@ -23,7 +23,7 @@ RULE = ("worlds of 3-5 interfaces, 2-3 classes, 3 instances (some directly provi
         "occasionally rebuild / __bases__ change) targeted at what the objects provide, each followed by 1-2 query "
         "groups: for one key (registry, arity 0-3 objects or bare specifications, provided, name) EVERY entry point "
         "(lookup for 4 names, lookup1, queryAdapter, adapter_hook, queryMultiAdapter, lookupAll, names, subscriptions, "
-        "subscribers, handlers, non-string names on every path) in random order from the cold cache and again in another "
+        "subscribers, handlers, truthy and falsy non-string names (42, b'', 0, (), None, ...) on every path) in random order from the cold cache and again in another "
         "random order from the warm cache; a case is non-trivial when some lookup in it found a factory; distinct = "
         "distinct (flavour, arities, first entry point of each group) signature")
 TRUSTED_BASE = ["shared registry model Model/Adapter.v + Lookup.v + RegSys.v as transcription of adapter.py (validated by "
@@ -36,6 +36,9 @@ ASSUMPTIONS = ["the uncached computations are deterministic functions of the reg
                "by entry-point calls since the last changed()"]
 
 NAMES = [0, 0, 0, 1, 2]
+# stand-ins for non-string names (harness/drivers/c08_driver.py NONSTRINGS); the model has one NotAString
+TRUTHY_NONSTR = ["X", "X4"]          # 42, b"n1"
+FALSY_NONSTR = ["X0", "X1", "X2", "X3", "X5"]   # b"", 0, (), None, 0.0
 
 
 def _add_supers(rng, world, classes):
@@ -175,14 +178,16 @@ def gen_ops(rng, world, ifaces, classes):
                       ["subscribers", r, objs, p]]
             if hand:
                 calls.append(["subscribers", r, objs, None])
-        if rng.random() < 0.5:
-            calls.append(["lookup", r, req, p, "X"])
+        # non-string names on every path: one truthy and one falsy stand-in (the falsy ones share the
+        # cache dictionary of name '' which the lookups above warm), cold and warm
+        for x in ([rng.choice(TRUTHY_NONSTR), rng.choice(FALSY_NONSTR)] if rng.random() < 0.8 else []):
+            calls.append(["lookup", r, req, p, x])
             if len(req) == 1:
-                calls.append(["lookup1", r, req[0], p, "X"])
+                calls.append(["lookup1", r, req[0], p, x])
             if not bare:
                 if len(objs) == 1:
-                    calls += [["queryAdapter", r, objs[0], p, "X"], ["adapter_hook", r, objs[0], p, "X"]]
-                calls.append(["queryMultiAdapter", r, objs, p, "X"])
+                    calls += [["queryAdapter", r, objs[0], p, x], ["adapter_hook", r, objs[0], p, x]]
+                calls.append(["queryMultiAdapter", r, objs, p, x])
         cold = list(calls)
         rng.shuffle(cold)
         warm = list(calls)
@@ -212,7 +217,10 @@ def generate(run, tier):
 def coq_case(case, obs, mode):
     if "error" in obs:
         raise C.HarnessError("driver error: " + obs["error"])
-    resolved = dict(case, ops=obs["ops"])
+    # every non-string stand-in is the model's NotAString (RC.c_name_arg knows "X")
+    ops = [[("X" if isinstance(x, str) and x.startswith("X") and i == 4 else x) for i, x in enumerate(op)]
+           for op in obs["ops"]]
+    resolved = dict(case, ops=ops)
     # the separator 999999 is a unary nat in Coq (16 MB each): name the shared constant instead
     return RC.coq_hist_case(resolved, obs).replace("999999", "MARK")
 
